@@ -22,6 +22,9 @@ def boom(x):
     return x
 def bad_init(): raise KeyError('init')
 def bad_exit(): raise KeyError('exit')
+def late_bad_exit():
+    time.sleep(0.6)      # the other workers are gone and the task queues are closed by the time this one fails
+    raise KeyError('exit')
 def children():
     me = os.getpid(); out = []
     for p in os.listdir('/proc'):
@@ -31,10 +34,28 @@ def children():
                 if int(st[1]) == me and st[0] != 'Z': out.append(int(p))
             except Exception: pass
     return out
+EXTRA = []
 def cycle(cause, sm, **kw):
+    before = set(threading.enumerate())
+    holder = []
+    try:
+        return _cycle2(cause, sm, kw, holder)
+    finally:
+        # right after the with-block, while the pool object still exists: no helper thread of the pool is alive
+        # (a thread that is just ending gets up to two seconds)
+        for _ in range(20):
+            extra = sorted(t.name for t in threading.enumerate() if t not in before and t.is_alive())
+            if not extra:
+                break
+            time.sleep(0.1)
+        EXTRA.append(extra)
+        holder.clear()
+def _cycle2(cause, sm, kw, holder):
     try:
         with WorkerPool(2, start_method=sm, **kw) as p:
-            if cause == 'success': p.map(sq, range(8), chunk_size=2)
+            holder.append(p)
+            if cause == 'late_exit_exc': p.map(sq, range(8), worker_exit=late_bad_exit)
+            elif cause == 'success': p.map(sq, range(8), chunk_size=2)
             elif cause == 'task_exc': p.map(boom, range(8), chunk_size=1)
             elif cause == 'init_exc': p.map(sq, range(8), worker_init=bad_init)
             elif cause == 'exit_exc': p.map(sq, range(8), worker_exit=bad_exit)
@@ -63,7 +84,7 @@ def main():
     gc.collect(); time.sleep(0.5)
     after = dict(fds=len(os.listdir('/proc/self/fd')), threads=sorted(t.name for t in threading.enumerate()), children=len(children()),
                  handler=repr(signal.getsignal(signal.SIGINT)), lock=id(std.get_lock()))
-    print(json.dumps({'base': base, 'after': after, 'outs': outs}))
+    print(json.dumps({'base': base, 'after': after, 'outs': outs, 'extra_threads_after_with': EXTRA[1:]}))
 if __name__ == '__main__':
     main()
 '''
@@ -95,16 +116,19 @@ def _run_file(path, args, timeout):
         return 'timeout', out, err
 
 
-def leak_suite(chk):
+def leak_suite(chk, quick=False):
     code = LEAK_DRIVER % {'root': ROOT}
-    causes = ['success', 'task_exc', 'init_exc', 'exit_exc', 'timeout', 'terminate_during_imap', 'abandoned_imap', 'mixed_map', 'progress', 'apply']
+    causes = ['success', 'task_exc', 'init_exc', 'exit_exc', 'late_exit_exc', 'timeout', 'terminate_during_imap', 'abandoned_imap', 'mixed_map', 'progress', 'apply']
     jobs = []
     for cause in causes:
-        for sm in ('fork', 'threading', 'spawn'):
+        for sm in ('fork', 'threading', 'spawn', 'forkserver'):
             if cause == 'timeout' and sm == 'threading':
                 continue
             for kw in ({}, {'keep_alive': True}):
                 jobs.append((cause, sm, kw))
+    if quick:
+        # the few combinations DetSim cannot express at all (queues with feeder threads and pipes, start methods that pickle)
+        jobs = [('late_exit_exc', 'spawn', {}), ('exit_exc', 'forkserver', {}), ('success', 'spawn', {'keep_alive': True}), ('abandoned_imap', 'forkserver', {})]
     from concurrent.futures import ThreadPoolExecutor
     with ThreadPoolExecutor(6) as ex:
         results = list(ex.map(lambda j: run_driver(code, [j[0], j[1], json.dumps(j[2])], timeout=150), jobs))
@@ -129,5 +153,9 @@ def leak_suite(chk):
                     chk.violation('no_descriptor_accumulation', case, {'fds_before': b['fds'], 'after': a['fds']}, 'descriptor count does not grow over cycles', input_class='real_fds_' + cause)
                 if a['threads'] != b['threads']:
                     chk.violation('no_thread_or_worker_alive_after_exit', case, {'threads_before': b['threads'], 'after': a['threads']}, 'no helper thread left', input_class='real_threads_' + cause)
+                extra = [x for x in d.get('extra_threads_after_with', []) if x]
+                if extra:
+                    chk.violation('no_thread_or_worker_alive_after_exit', case, {'threads_alive_right_after_the_with_block': extra[:3]},
+                                  'no helper thread of the pool is alive once the with-block is left', input_class='real_threads_after_with_' + cause)
                 if a['handler'] != b['handler'] or a['lock'] != b['lock']:
                     chk.violation('sigint_handler_restored', case, {'before': b, 'after': a}, 'SIGINT handler and tqdm lock unchanged', input_class='real_handler_' + cause)
